@@ -288,6 +288,7 @@ class CheckRun:
             "known_finding_note": "an obligation that fails exactly on a recorded known finding is re-posed as "
                                   "`post OR class(finding)`; that variant is what is counted as discharged for it",
             "functions_under_contract": functions,
+            "distinct_functions_under_contract": len({f["qualname"] for f in functions}),
             "backends": backends, "solver_ms": round(solver_ms, 1),
             "bounded": bsum,
             "bounded_obligations": sum(b.cases for b in self.bounded),
@@ -312,7 +313,7 @@ class CheckRun:
         for line in self.known_lines:
             print(line)
         print(f"[{self.prop}] tier={self.tier} P: {discharged}/{obligations} obligations discharged over "
-              f"{len(functions)} functions ({solver_ms:.0f} ms solver); B: {sum(b.cases for b in self.bounded)} bounded cases "
+              f"{len(functions)} contracts on {len({f['qualname'] for f in functions})} functions ({solver_ms:.0f} ms solver); B: {sum(b.cases for b in self.bounded)} bounded cases "
               f"in {len(self.bounded)} stand-ins; wall {wall:.1f}s")
         if self.failures:
             for f in self.failures:
